@@ -13,5 +13,6 @@ MCSeeds == {
 MCIds == 1..3
 MCOps == {"New", "Add", "IAdd", "AddRefused", "IAddRefused", "ForeignRefused", "Copy"}
 MCSliceArgs == {<<1, NoneIx>>, <<NoneIx, -1>>, <<1, 3>>}
+MCTakeArgs == {<<0>>}
 MCScalars == {<<2, 1, "pyint">>}
 =============================================================================
